@@ -37,6 +37,7 @@ CONSTANTS
     Caps,           \* capacities of r1 / r2 are drawn from this set (subset of 0..2)
     PoolSets,       \* pool-set ids (subset of 1..5)
     Modes,          \* subset of {"strict", "fallback"}
+    GenMod, GenRes, \* scenario sub-sampling (1, 0 = every scenario of the scope)
     W_CanReserve,   \* TRUE: CanReserve refuses an id whose capacity is used up        (FALSE = mutation)
     W_Release,      \* TRUE: releasing an id returns its capacity to the table
     W_PinAll,       \* TRUE: Finalize pins to ALL held ids (FALSE: only one of them)
@@ -45,8 +46,9 @@ CONSTANTS
     W_PoolOrder     \* TRUE: a reserved-offering refusal in a pool stops the search through lower-weight pools
 
 VARIABLES cfg, eff, claims, left, st, phase, flags,
-          preq, tmpl      \* derived (cached for TLC): requirement map of every effective pod / of every pool template
-vars == <<cfg, eff, claims, left, st, phase, flags, preq, tmpl>>
+          preq, tmpl,     \* derived (cached for TLC): requirement map of every effective pod / of every pool template
+          fr              \* derived: fr[k][i] = narrowing of a FRESH claim of pool i with pod k (depends on the pod's relaxation only)
+vars == <<cfg, eff, claims, left, st, phase, flags, preq, tmpl, fr>>
 
 ----------------------------------------------------------------------------
 (* scenario space *)
@@ -106,7 +108,12 @@ Scenario(l, c1, c2, ps, mode, batch) ==
     [name |-> "tlc-resv-" \o ToString(l) \o "-" \o ToString(c1) \o ToString(c2) \o "-" \o ToString(ps) \o "-" \o mode \o "-" \o ToString(batch),
      universe |-> U, unum |-> UNum, options |-> Opts(mode), types |-> Catalog(l, c1, c2), pools |-> PoolSet(ps), nodes |-> <<>>, ds |-> <<>>,
      scs |-> <<>>, pvs |-> <<>>, pvcs |-> <<>>, pods |-> [i \in 1..NPods |-> Arch(batch[i], PodName(i))]]
-ScenarioSpace == {Scenario(l, c1, c2, ps, m, b) : l \in Layouts, c1 \in Caps, c2 \in Caps, ps \in PoolSets, m \in Modes, b \in Batches}
+\* GenMod / GenRes: every GenMod-th scenario of the space (stride over all dimensions; 1 / 0 = the whole space)
+RECURSIVE SeqSum(_)
+SeqSum(q) == IF q = <<>> THEN 0 ELSE Head(q) + SeqSum(Tail(q))
+Params == {t \in Layouts \X Caps \X Caps \X PoolSets \X Modes \X Batches :
+             (t[1] + 3 * t[2] + 5 * t[3] + 7 * t[4] + (IF t[5] = "strict" THEN 0 ELSE 11) + SeqSum(t[6]) + 13 * t[6][1]) % GenMod = GenRes}
+ScenarioSpace == {Scenario(t[1], t[2], t[3], t[4], t[5], t[6]) : t \in Params}
 
 Strict == cfg.options.reserved = "strict"
 
@@ -155,11 +162,14 @@ Active == {k \in Batch : st[k] \in {"pending", "deferred"}}
 PoolByName(n) == PoolNamed(cfg, n)
 
 \* narrowing a claim (requirements reqs, types its, pods ks) with pod k
-Narrow(reqs, its, ks, k) ==
-    LET nr == MeetMap(reqs, preq[k])
+NarrowP(reqs, its, ks, k, pr) ==
+    LET nr == MeetMap(reqs, pr)
         P  == OrigPods(ks) \cup {Orig(k)}
         keep == {itn \in Range(its) : LET it == TypeByName(cfg, itn) IN ItCompat(it, nr) /\ FitsType(it, nr, P)}
     IN [ok |-> AllNonEmpty(nr) /\ keep # {}, reqs |-> nr, its |-> SelectSeq(its, LAMBDA x : x \in keep)]
+
+Narrow(reqs, its, ks, k) == NarrowP(reqs, its, ks, k, preq[k])
+FreshNarrow(t, k, pr) == [i \in DOMAIN cfg.pools |-> NarrowP(t[i], PoolTypes(cfg.pools[i]), <<>>, k, pr)]
 
 \* what the claim asks of the reservation manager after narrowing to (its, reqs)
 ResStep(heldPrev, its, reqs) ==
@@ -176,7 +186,7 @@ HeldMap == [h \in {claims[i].host : i \in DOMAIN claims} |-> (CHOOSE c \in Range
 \* outcome of trying a FRESH claim of pool index i for pod k: "fail" | "reserved" | "ok"
 Fresh(i, k) ==
     LET pool == cfg.pools[i]
-        r == Narrow(tmpl[i], PoolTypes(pool), <<>>, k)
+        r == fr[k][i]
     IN IF ~r.ok THEN [out |-> "fail", r |-> r, rs |-> ResStep({}, <<>>, r.reqs)]
        ELSE LET rs == ResStep({}, r.its, r.reqs) IN [out |-> IF rs.refused THEN "reserved" ELSE "ok", r |-> r, rs |-> rs]
 \* pools are evaluated in order; the first pool whose outcome is not "fail" decides (a refusal stops the search)
@@ -196,14 +206,16 @@ Init ==
     /\ flags = {}
     /\ preq = [k \in {PKey(p) : p \in Range(cfg.pods)} |-> PodReqs(PodByKey(cfg, k))]
     /\ tmpl = [i \in DOMAIN cfg.pools |-> TemplateReqs(cfg.pools[i])]
+    /\ fr = [k \in DOMAIN preq |-> FreshNarrow(tmpl, k, preq[k])]
 
 Flag(cond, name) == IF cond THEN {name} ELSE {}
 
 FTab(k) == [i \in DOMAIN cfg.pools |-> Fresh(i, k)]
 
-OpenNew(k) ==
-    LET F == FTab(k)
-        i == FirstDecisive(F) IN
+(* The four "fresh claim" actions take the table F = FTab(k); Next hands every one its own copy (named actions, coverage),    *)
+(* NextFast computes it once per pod and state (the exhaustive runs).                                                      *)
+OpenNewF(k, F) ==
+    LET i == FirstDecisive(F) IN
     /\ Solving(k)
     /\ i # 0 /\ F[i].out = "ok"
     /\ LET f == F[i]
@@ -213,7 +225,7 @@ OpenNew(k) ==
           /\ flags' = flags \cup Flag(Strict /\ ~G_C17_StrictClaim(cfg, f.r.its, f.r.reqs, {}, f.rs.toHold), "strict-claim")
                             \cup Flag(Strict /\ SimplePod(eff[k]) /\ ~G_C17_NoPoolFallback(cfg, HeldMap, eff[k], cfg.pools[i].name), "pool-fallback")
     /\ st' = [st EXCEPT ![k] = "placed"]
-    /\ UNCHANGED <<cfg, eff, phase, preq, tmpl>>
+    /\ UNCHANGED <<cfg, eff, phase, preq, tmpl, fr>>
 
 PlaceClaim(k, i) ==
     LET c == claims[i]
@@ -225,23 +237,21 @@ PlaceClaim(k, i) ==
     /\ left' = LeftAfter(c.held, rs.toHold)
     /\ flags' = flags \cup Flag(Strict /\ ~G_C17_StrictClaim(cfg, r.its, r.reqs, c.held, rs.toHold), "strict-claim")
     /\ st' = [st EXCEPT ![k] = "placed"]
-    /\ UNCHANGED <<cfg, eff, phase, preq, tmpl>>
+    /\ UNCHANGED <<cfg, eff, phase, preq, tmpl, fr>>
 
 \* strict mode: the pod is deferred with a reserved-offering error (it stays eligible: other claims may release capacity)
-Defer(k) ==
-    LET F == FTab(k) IN
+DeferF(k, F) ==
     /\ Solving(k)
     /\ Strict /\ st[k] = "pending"
     /\ IF W_PoolOrder THEN FirstDecisive(F) # 0 /\ F[FirstDecisive(F)].out = "reserved" ELSE FirstDecisive(F) = 0 /\ AnyRefusal(F)
     /\ st' = [st EXCEPT ![k] = "deferred"]
     /\ flags' = flags \cup Flag(~G_C17_DeferJustified(cfg, HeldMap), "defer-unjustified")
                       \cup Flag(SimplePod(eff[k]) /\ ~G_C17_DeferJustifiedExact(cfg, HeldMap, eff[k]), "defer-unjustified-exact")
-    /\ UNCHANGED <<cfg, eff, claims, left, phase, preq, tmpl>>
+    /\ UNCHANGED <<cfg, eff, claims, left, phase, preq, tmpl, fr>>
 
 \* relaxation happens only after an ordinary failure, never after a reserved-offering refusal
-Relax(k) ==
-    LET e == eff[k]
-        F == FTab(k) IN
+RelaxF(k, F) ==
+    LET e == eff[k] IN
     /\ Solving(k)
     /\ (Len(e.terms) > 1 \/ e.pref # <<>>)
     /\ FirstDecisive(F) = 0 /\ ~AnyRefusal(F)
@@ -249,15 +259,15 @@ Relax(k) ==
        \/ (Len(e.terms) <= 1 /\ e.pref # <<>>
            /\ eff' = [eff EXCEPT ![k] = [e EXCEPT !.pref = SelectSeq(e.pref, LAMBDA x : x # e.pref[Heaviest(e.pref)])]])
     /\ preq' = [preq EXCEPT ![k] = PodReqs(eff'[k])]
+    /\ fr' = [fr EXCEPT ![k] = FreshNarrow(tmpl, k, preq'[k])]
     /\ UNCHANGED <<cfg, claims, left, st, phase, flags, tmpl>>
 
-Fail(k) ==
-    LET F == FTab(k) IN
+FailF(k, F) ==
     /\ Solving(k)
     /\ Len(eff[k].terms) <= 1 /\ eff[k].pref = <<>>
     /\ FirstDecisive(F) = 0 /\ ~AnyRefusal(F)
     /\ st' = [st EXCEPT ![k] = "failed"]
-    /\ UNCHANGED <<cfg, eff, claims, left, phase, flags, preq, tmpl>>
+    /\ UNCHANGED <<cfg, eff, claims, left, phase, flags, preq, tmpl, fr>>
 
 PinReqs(c) ==
     IF c.held = {} THEN c.reqs
@@ -268,8 +278,12 @@ Finalize ==
     /\ phase = "solve"
     /\ phase' = "final"
     /\ claims' = [i \in DOMAIN claims |-> [claims[i] EXCEPT !.reqs = PinReqs(claims[i])]]
-    /\ UNCHANGED <<cfg, eff, left, st, flags, preq, tmpl>>
+    /\ UNCHANGED <<cfg, eff, left, st, flags, preq, tmpl, fr>>
 
+OpenNew(k) == OpenNewF(k, FTab(k))
+Defer(k) == DeferF(k, FTab(k))
+Relax(k) == RelaxF(k, FTab(k))
+Fail(k) == FailF(k, FTab(k))
 Next ==
     \/ \E k \in Batch : OpenNew(k)
     \/ \E k \in Batch : \E i \in DOMAIN claims : PlaceClaim(k, i)
@@ -278,6 +292,12 @@ Next ==
     \/ \E k \in Batch : Fail(k)
     \/ Finalize
 Spec == Init /\ [][Next]_vars
+\* the same transition relation with the table computed once per pod
+NextFast ==
+    \/ \E k \in Batch : Solving(k) /\ LET F == FTab(k) IN (OpenNewF(k, F) \/ DeferF(k, F) \/ RelaxF(k, F) \/ FailF(k, F))
+    \/ \E k \in Batch : \E i \in DOMAIN claims : PlaceClaim(k, i)
+    \/ Finalize
+SpecFast == Init /\ [][NextFast]_vars
 
 \* scenario generation: only the initial states, printed as JSON
 GenSpec == Init /\ [][FALSE]_vars
